@@ -64,12 +64,46 @@ FormOK(o, k) ==
       ELSE TRUE
 BadForm(o) == {k \in KeptRefs(o) : ~FormOK(o, k)}
 
+\* relative written form (what SkipSchemas must produce whatever AbsoluteCircularRef says)
+FormOKRel(o, k) ==
+  LET r == o.nodes[k].ref
+      u == Resolve(RootUrl(o), r)
+  IN  IF SameDoc(u, RootUrl(o)) THEN IsFragOnly(r)
+      ELSE IF UnderDirOf(RootUrl(o), u) THEN IsRelPath(r)
+      ELSE TRUE
+
+\* ---------------------------------------------------------------- C09
+\* Skip-schemas mode: a is an input node, b the output node at the same place.  Parameters,
+\* responses and path items are dereferenced; a schema $ref stays a $ref that designates,
+\* read from the root location, the node it designated before; everything else is unchanged.
+RECURSIVE Keeps(_, _, _, _, _)
+Keeps(o, tmIn, a, b, fuel) ==
+  IF fuel = 0 THEN TRUE
+  ELSE LET a1 == IF o.nodes[a].kind \in {"p", "r", "i"} THEN Deref(o, tmIn, a) ELSE a
+       IN  IF a1 = 0 THEN TRUE
+           ELSE IF b = 0 THEN FALSE
+           ELSE IF o.nodes[a1].isref
+           THEN /\ o.nodes[a1].kind = "s"
+                /\ o.nodes[b].isref
+                /\ Designates(o, o.nodes[b].doc, o.nodes[b].ref, FALSE) = tmIn[a1]
+           ELSE /\ ~o.nodes[b].isref
+                /\ o.nodes[b].lab = o.nodes[a1].lab
+                /\ PosSet(o, b) = PosSet(o, a1)
+                /\ \A p \in PosSet(o, a1) : Keeps(o, tmIn, Child(o, a1, p), Child(o, b, p), fuel - 1)
+
+C09Bad(o, tmIn) == {i \in 1..Len(o.entries) :
+                      /\ o.nodes[o.entries[i].a].kind # "s"
+                      /\ ~Keeps(o, tmIn, o.entries[i].a, o.entries[i].b, 30)}
+
 \* ---------------------------------------------------------------- C18
 LoadKey(u) == <<u.scheme, u.host, u.segs, u.query>>
 \* a document the loader delivered is never requested again (a refused request may be repeated)
 DupLoads(o) == {i \in 1..Len(o.loads) :
                   \E j \in 1..(i-1) : o.loadok[j] /\ LoadKey(o.loads[j]) = LoadKey(o.loads[i])}
 FragLoads(o) == {i \in 1..Len(o.loads) : o.loads[i].hasfrag}
+\* a document present in the supplied cache is never requested
+CachedLoads(o) == {i \in 1..Len(o.loads) :
+                     \E j \in 1..Len(o.cached) : LoadKey(o.cached[j]) = LoadKey(o.loads[i])}
 
 \* ---------------------------------------------------------------- C04 work
 RECURSIVE SumUnfold(_, _, _, _)
@@ -130,9 +164,16 @@ Verdict(o) ==
        c08contbisim |-> PF(ok /\ o.opts.cont /\ unf = {}, contbad = {}),
        c08contcut |-> PF(ok /\ o.opts.cont /\ full, contcut = {}),
        nbad    |-> Cardinality(mfb),
+       c09keep |-> PF(ok /\ wf /\ o.opts.skip, C09Bad(o, tmIn) = {}),
+       c09defs |-> PF(ok /\ o.opts.skip, o.defsame),
+       c09form |-> PF(ok /\ wf /\ o.opts.skip, {k \in KeptRefs(o) : ~FormOKRel(o, k)} = {}),
+       c09then |-> PF(ok /\ wf /\ o.entry = "SkipThenFull" /\ cyc = {}, o.samefull),
+       c10root |-> PF(term, o.rootsame),
+       c10opts |-> PF(term, o.optssame),
+       c18never|-> PF(term, CachedLoads(o) = {}),
        c18once |-> PF(o.outcome \in {"ok", "error"}, DupLoads(o) = {}),
        c18key  |-> PF(o.outcome \in {"ok", "error"}, FragLoads(o) = {}),
-       kf      |-> SetToSeq((IF KF_RebasePrefix(o, tmIn, cyc) THEN {"KF-REBASE-PREFIX"} ELSE {})
+       kf      |-> SetToSeq((IF KF_RebasePrefix(o, tmIn, cyc, live) THEN {"KF-REBASE-PREFIX"} ELSE {})
                             \cup (IF ChainMultiHop(o, tmIn, live) THEN {"KF-CHAIN-MULTIHOP"} ELSE {})),
        bad02   |-> SetToSeq(c02bad),
        bad03   |-> SetToSeq(offc \cup badf) ]
